@@ -33,6 +33,7 @@ def main():
     src, prop, name = sys.argv[1], sys.argv[2], sys.argv[3]
     tier = "quick"
     extra = []
+    orig = None
     args = sys.argv[4:]
     while args:
         a = args.pop(0)
@@ -42,10 +43,12 @@ def main():
             extra += ["--configs", args.pop(0)]
         elif a == "--types":
             extra += ["--types", args.pop(0)]
-    orig_root = os.path.dirname(os.path.abspath(src))
+        elif a == "--orig":
+            orig = args.pop(0)
+    orig_root = orig or os.path.dirname(os.path.abspath(src))
     dst = os.path.join(V, "seeded", name)
     os.makedirs(dst, exist_ok=True)
-    for f in os.listdir(src):
+    for f in ([] if os.path.abspath(src) == os.path.abspath(dst) else os.listdir(src)):
         if os.path.isfile(os.path.join(src, f)) and not f.startswith(".") and os.path.getsize(os.path.join(src, f)) < 200000 \
                 and f not in ("demo", "a.out"):
             shutil.copy(os.path.join(src, f), os.path.join(dst, f))
